@@ -1,0 +1,16 @@
+//go:build verif
+
+package lex
+
+// Contracts for the deductive verifier under /verif (comment-only; build tag verif).
+
+//@ func hexval
+//@   ensures (r >= '0' && r <= '9') ==> result == r - '0'
+//@   ensures (r >= 'a' && r <= 'f') ==> result == r - 'a' + 10
+//@   ensures (r >= 'A' && r <= 'F') ==> result == r - 'A' + 10
+//@   ensures !((r >= '0' && r <= '9') || (r >= 'a' && r <= 'f') || (r >= 'A' && r <= 'F')) ==> result == -1
+//@   ensures -1 <= result && result < 16
+
+//@ func octval
+//@   ensures (r >= '0' && r <= '7') ==> result == r - '0'
+//@   ensures !(r >= '0' && r <= '7') ==> result == -1
